@@ -108,7 +108,9 @@ class RefinementMonitor:
                 pos = (x0 - gmin) * subpix
                 # exactly on a sampled disparity (float32 values of samples are exact): a value that is off by 1e-8
                 # (left by a bilateral filter) is an off-sample input for the implementation, which truncates it
-                on_sample = pos == round(pos) and 0 <= round(pos) < nd
+                # (compared as values, not as float64 positions: -6.7e-23 left by a bilateral filter with a tiny
+                # sigma_color has position 4.0 in float64 and is nevertheless not the sample 0.0)
+                on_sample = pos == round(pos) and 0 <= round(pos) < nd and gmin + round(pos) / subpix == x0
                 if x1 < gmin - 1e-6 or x1 > gmax + 1e-6:
                     if on_sample or not reported_offsample:
                         self.v("outside_global_interval", ev, side, pixel=[r, c], before=x0, after=x1,
